@@ -18,8 +18,9 @@ import pandas as pd
 VERIF = os.path.dirname(os.path.dirname(os.path.dirname(os.path.abspath(__file__))))
 
 
-def extra_collections():
-    """Collections aimed at state kept outside operands: unsorted sources, quantile divisions on large partitions."""
+def extra_collections(outdir=None):
+    """Collections aimed at state kept outside operands: unsorted sources, quantile divisions on large partitions,
+    parquet plans cached in the sending process."""
     import dask_expr as dx
 
     n = 240
@@ -39,6 +40,26 @@ def extra_collections():
         "repartition_size": lambda: big.repartition(partition_size="1kB").v,
         "merge_large": lambda: big.merge(big[["k", "v"]].rename(columns={"v": "v2"}), on="k").v2.sum(),
     }
+    if outdir is not None:
+        # a parquet dataset (fsspec reader; collections of the arrow reader hold unpicklable FileInfo objects). The
+        # sending process first PEEKS at it with default arguments, which fills the process-wide plan cache.
+        pq = os.path.join(outdir, "pq")
+        if not os.path.exists(pq):
+            os.makedirs(pq)
+            src = pd.DataFrame({"x": np.arange(40), "y": (np.arange(40) * 3) % 7 * 1.0}, index=pd.Index(np.arange(40) * 2 + 100, name="ix"))
+            for k, (a, b) in enumerate(((0, 5), (5, 20), (20, 28), (28, 40))):
+                src.iloc[a:b].to_parquet(os.path.join(pq, f"part.{k}.parquet"))
+        peek = dx.read_parquet(pq)
+        len(peek)
+        peek.partitions[1][["x"]].optimize()
+        out.update(
+            {
+                # (no plain read among the shipped collections: the receiving interpreter must not repeat the sender's history)
+                "pq_calc_after_peek": lambda: dx.read_parquet(pq, calculate_divisions=True),
+                "pq_calc_after_peek_x": lambda: dx.read_parquet(pq, calculate_divisions=True)[["x"]],
+                "pq_filtered": lambda: (lambda r: r[r.x > 10])(dx.read_parquet(pq, calculate_divisions=True)),
+            }
+        )
     return out
 
 
@@ -73,7 +94,7 @@ def sender(outdir, names, tier):
     items = {}
     for n in names:
         items[f"prog/{n}"] = (lambda n=n: K.build(("range", 12, ("np", 3, True), n))[1])
-    for k, mk in extra_collections().items():
+    for k, mk in extra_collections(outdir).items():
         items[f"extra/{k}"] = mk
     manifest = {}
     with warnings.catch_warnings():
